@@ -32,7 +32,7 @@ RULE = (
     "(float64, 1-D, C order) and variants: permuted points; 2-D, Fortran-ordered, strided, reversed-view, read-only and pandas-Series (shuffled index "
     "labels) containers of the same element sequence; extra ignored coordinates; integer-valued coordinates and/or data passed as int64 / int32 "
     "(and general float coordinates with integer data); queries reshaped to 0-d / 2-D / 3-D / Fortran / strided; queries with a size-1 northing; "
-    "linearity triples (d1, d2, a d1 + b d2) with a, b in +-10^[-12,12] or compensating the data magnitude, d2 in the same or another magnitude class, also with the caller re-using one data buffer. Option values are also spelled differently (numpy.bool_ / comparison result / 1, 0 / 0-d array for rescale; int, numpy integer, numpy float for mindist, damping, poisson, k, degree; keyword, positional, set_params) and compared with the plain spelling. Every group is also queried 2, 10 and 100 bounding-box diagonals outside the data (point order with another last point, layout, integer dtypes; KNeighbors with k up to n against brute force), and a few Spline cases predict n_query x n_forces > 1e7 in one call (1499..1513 forces, 7001 / 20011 queries) against slices of 500, a permuted fit and the reference model. Data magnitudes cycle through 1e-15, 1e-12, 1e-9, 1e-6, 1, 1e6, 1e12 (tolerances stay relative); coordinate extents 1e-2..1e6 and (30 %) 1e-8..1e12. Point sets are in general "
+    "linearity triples (d1, d2, a d1 + b d2) with a, b in +-10^[-12,12] or compensating the data magnitude, d2 in the same or another magnitude class, also with the caller re-using one data buffer. Option values are also spelled differently (numpy.bool_ / comparison result / 1, 0 / 0-d array for rescale; int, numpy integer, numpy float for mindist, damping, poisson, k, degree; keyword, positional, set_params) and compared with the plain spelling. Argument aliasing: easting / northing (and data, weights) as views of ONE common table - columns of an (n,2) table in both orders, `n, e = t.T`, rows of a (2,n) table, rows walked backwards, Fortran-ordered tables, columns / rows of a wider table holding data and weights too, columns of one DataFrame - must equal the fit on contiguous copies. Every group is also queried 2, 10 and 100 bounding-box diagonals outside the data (point order with another last point, layout, integer dtypes; KNeighbors with k up to n against brute force), and a few Spline cases predict n_query x n_forces > 1e7 in one call (1499..1513 forces, 7001 / 20011 queries) against slices of 500, a permuted fit and the reference model. Data magnitudes cycle through 1e-15, 1e-12, 1e-9, 1e-6, 1, 1e6, 1e12 (tolerances stay relative); coordinate extents 1e-2..1e6 and (30 %) 1e-8..1e12. Point sets are in general "
     "position, 4..150 points, scales 1e-2..1e6. A variant is non-trivial when the group has >= 4 points, non-constant data and the transformation "
     "really changed memory layout / container / order / dtype (checked on the arrays); distinct = hash of gridder configuration + inputs + variant."
 )
@@ -48,18 +48,18 @@ ASSUMPTIONS = [
 FLOORS = {  # ~40 % of what the unchanged tree produces at quick seed 0 (see evidence/C04.json for the observed counts); thorough = 20 x
     "quick": {
         "eval:broadcast_shape": 202, "eval:dtype_invariance": 644, "eval:extra_coords_ignored": 132, "eval:fitted_model_owns_its_data": 50,
-        "eval:layout_invariance": 732, "eval:linearity": 103, "eval:permutation_invariance": 124, "eval:predict_shape": 5221,
-        "eval:query_layout": 908, "eval:reference_agreement": 28, "eval:refit_history": 379, "distinct_nontrivial": 3112,
+        "eval:layout_invariance": 1394, "eval:linearity": 103, "eval:permutation_invariance": 124, "eval:predict_shape": 5221,
+        "eval:query_layout": 1174, "eval:reference_agreement": 28, "eval:refit_history": 379, "distinct_nontrivial": 3112,
         "dtype_invariance:all_int32": 68, "dtype_invariance:coords_int32": 68, "dtype_invariance:coords_int64": 68,
         "dtype_invariance:data_int64": 68, "dtype_invariance:float_coords_data_int64": 48, "dtype_invariance:query_int64": 68,
         "forces:Spline:m==2n": 2, "forces:Spline:m==n": 4, "forces:Spline:m==n+1": 2, "forces:Spline:m==n-1": 2, "forces:VectorSpline2D:m==2n": 1,
         "forces:VectorSpline2D:m==n": 2, "forces:VectorSpline2D:m==n+1": 1, "forces:VectorSpline2D:m==n-1": 1, "groups": 132,
-        "groups:ScipyGridder": 3, "groups:coordinate_extent_class=above_1e6": 10, "groups:coordinate_extent_class=below_1e-2": 11,
+        "groups:ScipyGridder:nearest": 1, "groups:coordinate_extent_class=above_1e6": 10, "groups:coordinate_extent_class=below_1e-2": 11,
         "groups:data_magnitude=1": 18, "groups:data_magnitude=1e+06": 17, "groups:data_magnitude=1e+12": 17, "groups:data_magnitude=1e-06": 19,
         "groups:data_magnitude=1e-09": 19, "groups:data_magnitude=1e-12": 20, "groups:data_magnitude=1e-15": 20, "layout_invariance:2d": 101,
-        "layout_invariance:data_magnitude=1": 99, "layout_invariance:data_magnitude=1e+06": 98, "layout_invariance:data_magnitude=1e+12": 101,
-        "layout_invariance:data_magnitude=1e-06": 103, "layout_invariance:data_magnitude=1e-09": 103, "layout_invariance:data_magnitude=1e-12": 112,
-        "layout_invariance:data_magnitude=1e-15": 113, "layout_invariance:fortran": 101, "layout_invariance:readonly": 132,
+        "layout_invariance:data_magnitude=1": 189, "layout_invariance:data_magnitude=1e+06": 186, "layout_invariance:data_magnitude=1e+12": 189,
+        "layout_invariance:data_magnitude=1e-06": 199, "layout_invariance:data_magnitude=1e-09": 199, "layout_invariance:data_magnitude=1e-12": 214,
+        "layout_invariance:data_magnitude=1e-15": 215, "layout_invariance:fortran": 101, "layout_invariance:readonly": 132,
         "layout_invariance:reversed_view": 132, "layout_invariance:series": 132, "layout_invariance:strided": 132, "linearity:buffer_reuse": 46,
         "linearity:data_magnitude=1": 14, "linearity:data_magnitude=1e+06": 13, "linearity:data_magnitude=1e+12": 12,
         "linearity:data_magnitude=1e-06": 16, "linearity:data_magnitude=1e-09": 15, "linearity:data_magnitude=1e-12": 15,
@@ -85,21 +85,27 @@ FLOORS = {  # ~40 % of what the unchanged tree produces at quick seed 0 (see evi
         "far_extrapolation:permutation:neighbors": 18, "far_extrapolation:permutation:spline": 36, "far_extrapolation:permutation:trend": 22,
         "far_extrapolation:permutation:vector": 16, "far_extrapolation:permutation:vector_of": 5, "large:slices_of_500": 1, "large:permutation": 1,
         "large:reference_subsample": 1, "large:n_queries=7001": 1, "eval:far_extrapolation": 274, "eval:large_call": 3,
+        "groups:ScipyGridder:cubic": 1, "groups:ScipyGridder:linear": 1, "layout_invariance:dataframe_columns": 70,
+        "layout_invariance:table(2,n)_rows": 66, "layout_invariance:table(n,2)": 66, "layout_invariance:table(n,2).T_unpacked": 69,
+        "layout_invariance:table(n,2)_fortran_northing_first": 68, "layout_invariance:table(n,2)_northing_first": 62,
+        "layout_invariance:table(n,2)_rows_backwards": 64, "layout_invariance:wide_table_columns": 63, "layout_invariance:wide_table_rows": 64,
+        "layout_invariance:wide_table_rows_backwards": 66, "query_layout:table_northing_first": 132, "query_layout:table_rows_backwards": 132,
     },
     "thorough": {
         "eval:broadcast_shape": 4040, "eval:dtype_invariance": 12880, "eval:extra_coords_ignored": 2640, "eval:fitted_model_owns_its_data": 1000,
-        "eval:layout_invariance": 14640, "eval:linearity": 2060, "eval:permutation_invariance": 2480, "eval:predict_shape": 104420,
-        "eval:query_layout": 18160, "eval:reference_agreement": 560, "eval:refit_history": 7580, "distinct_nontrivial": 62240,
+        "eval:layout_invariance": 27880, "eval:linearity": 2060, "eval:permutation_invariance": 2480, "eval:predict_shape": 104420,
+        "eval:query_layout": 23480, "eval:reference_agreement": 560, "eval:refit_history": 7580, "distinct_nontrivial": 62240,
         "dtype_invariance:all_int32": 1360, "dtype_invariance:coords_int32": 1360, "dtype_invariance:coords_int64": 1360,
         "dtype_invariance:data_int64": 1360, "dtype_invariance:float_coords_data_int64": 960, "dtype_invariance:query_int64": 1360,
         "forces:Spline:m==2n": 40, "forces:Spline:m==n": 80, "forces:Spline:m==n+1": 40, "forces:Spline:m==n-1": 40,
         "forces:VectorSpline2D:m==2n": 20, "forces:VectorSpline2D:m==n": 40, "forces:VectorSpline2D:m==n+1": 20, "forces:VectorSpline2D:m==n-1": 20,
-        "groups": 2640, "groups:ScipyGridder": 60, "groups:coordinate_extent_class=above_1e6": 200, "groups:coordinate_extent_class=below_1e-2": 220,
-        "groups:data_magnitude=1": 360, "groups:data_magnitude=1e+06": 340, "groups:data_magnitude=1e+12": 340, "groups:data_magnitude=1e-06": 380,
-        "groups:data_magnitude=1e-09": 380, "groups:data_magnitude=1e-12": 400, "groups:data_magnitude=1e-15": 400, "layout_invariance:2d": 2020,
-        "layout_invariance:data_magnitude=1": 1980, "layout_invariance:data_magnitude=1e+06": 1960, "layout_invariance:data_magnitude=1e+12": 2020,
-        "layout_invariance:data_magnitude=1e-06": 2060, "layout_invariance:data_magnitude=1e-09": 2060,
-        "layout_invariance:data_magnitude=1e-12": 2240, "layout_invariance:data_magnitude=1e-15": 2260, "layout_invariance:fortran": 2020,
+        "groups": 2640, "groups:ScipyGridder:nearest": 20, "groups:coordinate_extent_class=above_1e6": 200,
+        "groups:coordinate_extent_class=below_1e-2": 220, "groups:data_magnitude=1": 360, "groups:data_magnitude=1e+06": 340,
+        "groups:data_magnitude=1e+12": 340, "groups:data_magnitude=1e-06": 380, "groups:data_magnitude=1e-09": 380,
+        "groups:data_magnitude=1e-12": 400, "groups:data_magnitude=1e-15": 400, "layout_invariance:2d": 2020,
+        "layout_invariance:data_magnitude=1": 3780, "layout_invariance:data_magnitude=1e+06": 3720, "layout_invariance:data_magnitude=1e+12": 3780,
+        "layout_invariance:data_magnitude=1e-06": 3980, "layout_invariance:data_magnitude=1e-09": 3980,
+        "layout_invariance:data_magnitude=1e-12": 4280, "layout_invariance:data_magnitude=1e-15": 4300, "layout_invariance:fortran": 2020,
         "layout_invariance:readonly": 2640, "layout_invariance:reversed_view": 2640, "layout_invariance:series": 2640,
         "layout_invariance:strided": 2640, "linearity:buffer_reuse": 920, "linearity:data_magnitude=1": 280, "linearity:data_magnitude=1e+06": 260,
         "linearity:data_magnitude=1e+12": 240, "linearity:data_magnitude=1e-06": 320, "linearity:data_magnitude=1e-09": 300,
@@ -126,6 +132,11 @@ FLOORS = {  # ~40 % of what the unchanged tree produces at quick seed 0 (see evi
         "far_extrapolation:permutation:spline": 720, "far_extrapolation:permutation:trend": 440, "far_extrapolation:permutation:vector": 320,
         "far_extrapolation:permutation:vector_of": 100, "large:slices_of_500": 4, "large:permutation": 4, "large:reference_subsample": 4,
         "large:n_queries=7001": 4, "large:n_queries=20011": 4, "eval:far_extrapolation": 5480, "eval:large_call": 24,
+        "groups:ScipyGridder:cubic": 20, "groups:ScipyGridder:linear": 20, "layout_invariance:dataframe_columns": 1400,
+        "layout_invariance:table(2,n)_rows": 1320, "layout_invariance:table(n,2)": 1320, "layout_invariance:table(n,2).T_unpacked": 1380,
+        "layout_invariance:table(n,2)_fortran_northing_first": 1360, "layout_invariance:table(n,2)_northing_first": 1240,
+        "layout_invariance:table(n,2)_rows_backwards": 1280, "layout_invariance:wide_table_columns": 1260, "layout_invariance:wide_table_rows": 1280,
+        "layout_invariance:wide_table_rows_backwards": 1320, "query_layout:table_northing_first": 2640, "query_layout:table_rows_backwards": 2640,
     },
 }
 JOBS = {"quick": 1, "thorough": 16}
@@ -420,7 +431,9 @@ def run_group(run, rng, model, east, north, data, weights, qe, qn, integer_base=
 
     # -- layout-only containers of the same element sequence ----------------------
     arrays = (east, north) + tuple(data) + (tuple(weights) if weights is not None else ())
-    for lname, conts in gen.layouts(arrays, rng):
+    aliased = list(_aliased_tables(arrays, rng))
+    keep = set(int(v) for v in rng.choice(len(aliased), 5, replace=False))  # five of the ten aliasing classes per group
+    for lname, conts in list(gen.layouts(arrays, rng)) + [a for k, a in enumerate(aliased) if k in keep]:
         ce, cn = conts[0], conts[1]
         cd = tuple(conts[2:2 + model.ncomp])
         cw = None if weights is None else tuple(conts[2 + model.ncomp:])
@@ -636,6 +649,50 @@ def _refit_histories(run, rng, model, group, conf, east, north, data, weights, q
             run.mark_nontrivial("refit", hname, conf, first[0][0], second[0][0], second[1])
 
 
+def _aliased_tables(arrays, rng):
+    """
+    The same element sequences given as VIEWS OF ONE COMMON TABLE (argument aliasing): easting / northing (and data, weights) are columns or rows of one
+    2-D array in every order and direction. Yields (name, containers); np.ravel of every container is the base sequence.
+    """
+    import pandas as pd
+
+    east, north = arrays[0], arrays[1]
+    rest = list(arrays[2:])
+    n = east.size
+
+    def with_rest(e, nn, rest_views=None):
+        return (e, nn) + tuple(rest_views if rest_views is not None else [r.copy() for r in rest])
+
+    t = np.column_stack([east, north])
+    yield "table(n,2)", with_rest(t[:, 0], t[:, 1])
+    t = np.column_stack([north, east])  # a northing-first file
+    yield "table(n,2)_northing_first", with_rest(t[:, 1], t[:, 0])
+    t = np.column_stack([north, east])
+    nn, e = t.T
+    yield "table(n,2).T_unpacked", with_rest(e, nn)
+    t = np.vstack([east, north]) if rng.random() < 0.5 else np.vstack([north, east])[::-1]
+    yield "table(2,n)_rows", with_rest(t[0], t[1])
+    t = np.column_stack([east[::-1], north[::-1]])  # rows walked backwards give the base order again
+    yield "table(n,2)_rows_backwards", with_rest(t[::-1, 0], t[::-1, 1])
+    t = np.asfortranarray(np.column_stack([north, east]))
+    yield "table(n,2)_fortran_northing_first", with_rest(t[:, 1], t[:, 0])
+    # one wide table holding coordinates, data and weights (and junk columns) in a random column order
+    ncols = 2 + len(rest) + int(rng.integers(1, 4))
+    cols = rng.permutation(ncols)
+    wide = rng.normal(size=(n, ncols)) * 1e3
+    if rng.random() < 0.5:
+        wide = np.asfortranarray(wide)
+    for k, arr in enumerate(arrays):
+        wide[:, cols[k]] = arr
+    yield "wide_table_columns", tuple(wide[:, cols[k]] for k in range(len(arrays)))
+    wide_t = np.ascontiguousarray(wide.T)  # series stored as rows, walked backwards for half of them
+    yield "wide_table_rows", tuple(wide_t[cols[k]] for k in range(len(arrays)))
+    back = wide[::-1].copy()
+    yield "wide_table_rows_backwards", tuple(back[::-1, cols[k]] for k in range(len(arrays)))
+    frame = pd.DataFrame(wide, index=rng.permutation(n) + 500, columns=["c%d" % k for k in range(ncols)])
+    yield "dataframe_columns", tuple(frame["c%d" % cols[k]] for k in range(len(arrays)))
+
+
 def _query_variants(rng, qe, qn):
     """(name, (easting, northing) containers, index of the base queries they hold in C order)."""
     size = qe.size
@@ -656,6 +713,10 @@ def _query_variants(rng, qe, qn):
     k = int(rng.integers(0, size))
     out.append(("0d", (np.float64(qe[k]), np.float64(qn[k])) if rng.random() < 0.5 else (np.array(qe[k]), np.array(qn[k])), np.array([k])))
     out.append(("single_row", (qe.reshape(1, -1), qn.reshape(1, -1)), everything))
+    tq = np.column_stack([qn, qe]) if rng.random() < 0.5 else np.asfortranarray(np.column_stack([qn, qe]))
+    out.append(("table_northing_first", (tq[:, 1], tq[:, 0]), everything))
+    tb = np.column_stack([qe[::-1], qn[::-1]])
+    out.append(("table_rows_backwards", (tb[::-1, 0], tb[::-1, 1]), everything))
     ro_e, ro_n = qe.copy(), qn.copy()
     ro_e.setflags(write=False)
     ro_n.setflags(write=False)
@@ -680,7 +741,7 @@ def _linearity(run, rng, model, group, conf, east, north, data, weights, qe, qn,
     d3 = tuple(a * x + b * y for x, y in zip(data, d2))
     # buffer re-use only where verde itself owns the stored state (documented copies: KNeighbors.data_, spline force coordinates); Linear hands a view of
     # the caller's data to SciPy, which keeps it - outside this statement (reported, not judged here)
-    reuse = rng.random() < 0.5 and model.kind in ("spline", "trend", "vector", "neighbors")
+    reuse = rng.random() < 0.5 and model.kind in ("spline", "trend", "vector", "neighbors") and getattr(model, "owns_data", True)
     wit = dict(conf, east=east, north=north, d1=list(data), d2=list(d2), a=a, b=b, weights=None if weights is None else list(weights), query_east=qe, query_north=qn,
                variant="linearity" + ("(caller re-uses one data buffer)" if reuse else ""))
 
@@ -1081,12 +1142,24 @@ def _stream_scipy(run, rng, verde, index):
     cls = verde.Linear if linear else verde.Cubic
     model = Model("linear" if linear else "cubic", "%s(rescale=%s)" % (cls.__name__, rescale), lambda: cls(rescale=rescale), linear=linear, weights_ok=False, qhull=True,
                   rescale=rescale)
-    if index % 5 == 4:  # the deprecated generic wrapper around the same SciPy classes
-        method = "linear" if linear else "cubic"
-        model = Model(method, "ScipyGridder(%s, rescale=%s)" % (method, rescale), lambda: verde.ScipyGridder(method=method, extra_args={"rescale": rescale}),
-                      linear=linear, weights_ok=False, qhull=True, rescale=rescale)
-        run.count("groups:ScipyGridder")
+    nearest = False
+    if index % 5 == 4:  # the deprecated generic wrapper around the same SciPy classes: linear, cubic and nearest
+        method = ("linear" if linear else "cubic", "nearest")[(index // 5) % 2]
+        nearest = method == "nearest"
+        if nearest:
+            model = Model("neighbors", "ScipyGridder(nearest)", lambda: verde.ScipyGridder(method="nearest"), linear=True, weights_ok=False, k=1)
+            model.owns_data = False  # SciPy keeps the view of the caller's data it is given (reported; outside this statement)
+        else:
+            model = Model(method, "ScipyGridder(%s, rescale=%s)" % (method, rescale), lambda: verde.ScipyGridder(method=method, extra_args={"rescale": rescale}),
+                          linear=linear, weights_ok=False, qhull=True, rescale=rescale)
+        run.count("groups:ScipyGridder:" + method)
     qe, qn = _queries(rng, east, north, 12, inside=True, far=2)
+    if nearest:
+        qe, qn = _drop_knn_ties(east, north, qe[:12], qn[:12], 1)
+        qe, qn = qe[: qe.size - qe.size % 2], qn[: qn.size - qn.size % 2]
+        if qe.size < 4:
+            run.count("skipped:knn_ties")
+            return
     ib = _integer_inputs(rng, min(n, 60), 1, inside=True) if index % 2 == 0 else None
     run_group(run, rng, model, east, north, data, None, qe, qn, integer_base=ib,
               float_int_data=(np.round(data[0] / (np.max(np.abs(data[0])) or 1.0) * 500.0),) if index % 3 == 0 else None)
